@@ -613,6 +613,9 @@ func judgeCase(rec *caseRecord, sum *jSummary) {
 			switch {
 			case strings.Contains(dline, ".responses.default"):
 				class = "known:default-response-3.0-only"
+			case strings.Contains(dline, ".maxItems: 0 vs null"):
+				// 'maxItems=0': the 3.0 document says maxItems: 0, the 3.1 document has no maxItems at all (the zero is dropped on rendering)
+				class = "known:maxitems-zero-omitted-3.1"
 			case declaredEnumTypesDiff.MatchString(dline):
 				// a DECLARED non-string enum (component of kind enum): values are strings in 3.0, numbers in 3.1
 				class = "known:enum-values-as-strings-3.0"
